@@ -3,7 +3,8 @@
    A token is one complete Set 2 key sequence (prefix, break flag, code); its i8042 translation is the
    Set 1 sequence of Check/C13.v.  For every list of tokens that Set 2 decodes to ordinary key events, the
    Set 2 decoder fed the concatenated sequences and the Set 1 decoder fed the concatenated translations
-   report the same events in the same order, stay silent everywhere else, and end in their initial states.
+   report the same events in the same order, stay silent everywhere else, and end in their initial states;
+   pass-through bytes (acknowledgements, resend requests, ...) may be interleaved anywhere.
    The finite fact is a per-token check from the initial state (run to completion, back in the initial
    state); the induction over the token list is generic. *)
 From Coq Require Import NArith Arith Bool List Lia.
@@ -84,20 +85,36 @@ End Two.
 
 Notation cex_C13s I1 I2 := (filter (bad_tok I1 I2) dom3).
 
-(* the search for a failing input when the per-token check fails: two considered tokens in a row whose
-   events differ between the sets (the first token leaves something behind) *)
-Definition events_of_stream (I : ScanImpl) (bs : list N) : outcome (list sc_result) :=
+(* Bytes that are not part of any key sequence but occur in real streams - command acknowledgements (FA),
+   resend requests (FE), echo (EE), self-test results (AA, FC)...: the i8042 passes every byte >= 0x80 that
+   its table does not translate through unchanged.  Both decoders may make of such a byte what they like
+   (AA is a status code in Set 2 and a Shift release in Set 1), but it must leave neither of them in a
+   state other than the initial one: it must not influence what the following keys decode to. *)
+Definition passthrough (b : N) : bool :=
+  (128 <=? b) && match xlat b with None => true | Some _ => false end &&
+  negb ((b =? 0xE0) || (b =? 0xE1) || (b =? 0xF0)).
+Definition home (I : ScanImpl) (bs : list N) : bool :=
   match sc_init I with
-  | Ret s0 => omap said (outs (scan_machine I) s0 bs)
-  | Panic => Panic
+  | Ret s0 => match run (scan_machine I) s0 bs with Ret (s', _) => sc_eqb I s' s0 | Panic => false end
+  | Panic => false
   end.
-Definition pair_differs (I1 I2 : ScanImpl) (x : tok * tok) : bool :=
-  negb (outcome_eqb (list_eqb scres_eqb)
-          (events_of_stream I2 (tok2 (fst x) ++ tok2 (snd x)))
-          (events_of_stream I1 (tok1 (fst x) ++ tok1 (snd x)))).
+Definition bad_junk (I1 I2 : ScanImpl) (b : N) : bool := passthrough b && negb (home I2 [b] && home I1 [b]).
+Notation cex_junk_C13s I1 I2 := (filter (bad_junk I1 I2) all_bytes).
+
+(* a stream element: a key sequence, or such a byte on its own *)
+Inductive stok : Type := SKey (t : tok) | SJunk (b : N).
+Definition stok2 (x : stok) : list N := match x with SKey t => tok2 t | SJunk b => [b] end.
+Definition stok1 (x : stok) : list N := match x with SKey t => tok1 t | SJunk b => [b] end.
+
+(* the search for a failing input when a per-token check fails: a considered key sequence or a pass-through
+   byte, followed by a considered key sequence whose event then differs between the sets *)
+Definition last_said (I : ScanImpl) (bs : list N) : outcome sc_result := last_out I bs.
+Definition pair_differs (I1 I2 : ScanImpl) (x : stok * tok) : bool :=
+  negb (outcome_eqb scres_eqb (last_said I2 (stok2 (fst x) ++ tok2 (snd x))) (last_said I1 (stok1 (fst x) ++ tok1 (snd x)))).
 Notation considered_toks I2 := (filter (considered I2) dom3).
+Notation firsts_C13s I2 := (map SKey (considered_toks I2) ++ map SJunk (filter passthrough all_bytes)).
 Notation cex_pairs_C13s I1 I2 :=
-  (filter (pair_differs I1 I2) (list_prod (considered_toks I2) (considered_toks I2))).
+  (filter (pair_differs I1 I2) (list_prod (firsts_C13s I2) (considered_toks I2))).
 
 Section Sound.
   Variables I1 I2 : ScanImpl.
@@ -125,20 +142,52 @@ Section Sound.
     exists a, os2, os1. auto.
   Qed.
 
-  (* every stream of considered key sequences, of any length: both decoders report the same events, one
-     per sequence, say nothing else, never panic, and are back in their initial states at the end *)
-  Theorem C13_stream_sound : forall toks, Forall good toks ->
-    exists evs os2 os1,
-      run (scan_machine I2) s2 (flat_map tok2 toks) = Ret (s2, os2) /\
-      run (scan_machine I1) s1 (flat_map tok1 toks) = Ret (s1, os1) /\
-      said os2 = map (fun e => Ok (Some e)) evs /\ said os1 = map (fun e => Ok (Some e)) evs /\
-      length evs = length toks.
+  Hypothesis Hj : cex_junk_C13s I1 I2 = [].
+
+  Definition good_s (x : stok) : Prop :=
+    match x with SKey t => good t | SJunk b => b < 256 /\ passthrough b = true end.
+
+  Lemma junk_home : forall b, b < 256 -> passthrough b = true ->
+    exists os2 os1, run (scan_machine I2) s2 [b] = Ret (s2, os2) /\ run (scan_machine I1) s1 [b] = Ret (s1, os1).
   Proof.
-    induction 1 as [|t toks Ht _ IH].
-    - exists [], [], []. simpl. auto.
-    - destruct IH as (evs & os2 & os1 & R2 & R1 & S2 & S1 & Hl).
-      destruct (tok_event t Ht) as (e & o2 & o1 & T2 & U2 & T1 & U1).
-      exists (e :: evs), (o2 ++ os2), (o1 ++ os1). cbn [flat_map].
-      rewrite !run_app, T2, T1, R2, R1, !said_app, U2, U1, S2, S1. simpl. rewrite Hl. auto.
+    intros b Hb Hp.
+    pose proof (filter_nil_forall _ _ Hj b (all_bytes_complete b Hb)) as H.
+    unfold bad_junk in H. rewrite Hp in H. cbn [andb] in H. apply negb_false_iff in H. apply andb_prop in H as [H2 H1].
+    unfold home in H1, H2. rewrite Hi1 in H1. rewrite Hi2 in H2.
+    destruct (run (scan_machine I2) s2 [b]) as [[t2 os2]|]; [|discriminate].
+    destruct (run (scan_machine I1) s1 [b]) as [[t1 os1]|]; [|discriminate].
+    apply (reflect_eq_true (eqb_spec_pf (f:=sc_eqb I2) (EqbSpec:=sc_eqb_ok I2) _ _)) in H2.
+    apply (reflect_eq_true (eqb_spec_pf (f:=sc_eqb I1) (EqbSpec:=sc_eqb_ok I1) _ _)) in H1. subst.
+    exists os2, os1. auto.
+  Qed.
+
+  (* what the two decoders say while one stream element passes *)
+  Definition elem_ok (x : stok) (r : list sc_result * list sc_result) : Prop :=
+    match x with
+    | SKey _ => exists e, said (fst r) = [Ok (Some e)] /\ said (snd r) = [Ok (Some e)]
+    | SJunk _ => True
+    end.
+
+  (* every stream of considered key sequences and pass-through bytes, of any length: neither decoder
+     panics, both are back in their initial states at the end, and while each key sequence passes both
+     report the same single event (and nothing else) - whatever preceded it *)
+  Theorem C13_stream_sound : forall xs, Forall good_s xs ->
+    exists rs : list (list sc_result * list sc_result),
+      run (scan_machine I2) s2 (flat_map stok2 xs) = Ret (s2, flat_map fst rs) /\
+      run (scan_machine I1) s1 (flat_map stok1 xs) = Ret (s1, flat_map snd rs) /\
+      Forall2 elem_ok xs rs.
+  Proof.
+    induction 1 as [|x xs Hx _ IH].
+    - exists []. simpl. auto.
+    - destruct IH as (rs & R2 & R1 & Hall).
+      destruct x as [t|b].
+      + destruct (tok_event t Hx) as (e & o2 & o1 & T2 & U2 & T1 & U1).
+        exists ((o2, o1) :: rs). cbn [flat_map stok2 stok1 fst snd].
+        rewrite !run_app, T2, T1, R2, R1. repeat split; try reflexivity.
+        constructor; [|exact Hall]. exists e. auto.
+      + destruct Hx as [Hb Hp]. destruct (junk_home b Hb Hp) as (o2 & o1 & T2 & T1).
+        exists ((o2, o1) :: rs). cbn [flat_map stok2 stok1 fst snd].
+        rewrite !run_app, T2, T1, R2, R1. repeat split; try reflexivity.
+        constructor; [exact Logic.I | exact Hall].
   Qed.
 End Sound.
